@@ -468,7 +468,8 @@ void World::on_alloc_fail(uint64_t index) {
 	for (auto &cl : clients) { cl.c19_broken_by_fault = true; if (cl.c19) cl.no_expect = true; }   // echo endpoint: what a connection that lived through the failure gets back is not predictable
 	if (!started) probe("alloc_failed_during_startup");
 	// the outcome of whatever is being processed now is not predictable: requests outstanding at this moment may stay unanswered (never answered twice)
-	if (mode == "exact") { for (auto &cl : clients) cl.expq.clear(); flush_pending(); mode = "ledger"; }
+	// (the remaining messages of the interrupted read are accounted in ledger mode: the reference model's "outcome must be signalled before further input" rule no longer applies)
+	if (mode == "exact") { for (auto &cl : clients) cl.expq.clear(); mode = "ledger"; flush_pending(); }
 	else if (shadow_active) flush_pending();
 	shadow_fork();
 }
